@@ -143,7 +143,10 @@ func (ls ListSpec) Build() *astisub.Subtitles {
 	lines := make([]astisub.Line, 0, 8)
 	lines = append(lines, astisub.Line{Items: []astisub.LineItem{{Text: "top"}}}, astisub.Line{Items: []astisub.LineItem{{Text: ""}}},
 		astisub.Line{Items: []astisub.LineItem{{Text: "bottom"}}}, astisub.Line{}, astisub.Line{Items: []astisub.LineItem{{Text: "  "}}}, astisub.Line{Items: []astisub.LineItem{{Text: "last"}}})
-	s.Items = append(s.Items, &astisub.Item{Index: 7, StartAt: 500 * time.Millisecond, EndAt: 900 * time.Millisecond, Lines: lines})
+	// ... and a position near the bottom of the screen that its six lines do not fit under: a writer may move what it
+	// writes, not the position it was given
+	s.Items = append(s.Items, &astisub.Item{Index: 7, StartAt: 500 * time.Millisecond, EndAt: 900 * time.Millisecond, Lines: lines,
+		InlineStyle: &astisub.StyleAttributes{STLPosition: &astisub.STLPosition{VerticalPosition: 22, MaxRows: 23, Rows: 6}}})
 	return s
 }
 
